@@ -586,7 +586,7 @@ def exec_sync_read(case):
             val, exc = got[name]
             what = "read_sync" if name == "rs" else "Reader.read(...)[1]"
             if exc is not None:
-                d = "empty_selection_floor" if (not sel and acols and (use_floor or name == "rd")) else "exception"
+                d = "exception"
                 r.bad.append(("%s raised %r for %d selected samples; the recording has 1 sync word and %d analog "
                               "sync channel(s)" % (what, exc, len(sel), len(acols)), dict(tags, defect=d)))
                 continue
@@ -741,13 +741,15 @@ def exec_ttl(case):
 
 
 def exec_nometa(case):
-    """Flat binary opened without meta data (nc=385, one sync word): no model, oracle only."""
+    """Flat binary opened without meta data (nc=385, one sync word): the digital lines of the LAST trace
+    (repair 87031c9), no analog lines; read_sync and read(...)[1] likewise.  Oracle only."""
     import spikeglx
     r = Result()
     ns = case["ns"]
     rs = np.random.RandomState(case["fill_seed"])
     D = rs.randint(-3000, 3000, size=(ns, 385)).astype(np.int16)
     D[:, -1] = rs.randint(-32768, 32768, size=ns)
+    bits = [py_bits(v) for v in D[:, -1]]
     tmp = common.tmpdir("C10_")
     sr = None
     tags = {"kind": "sync_read", "typ": "flat_no_meta"}
@@ -763,14 +765,24 @@ def exec_nometa(case):
         if exc is not None or an is not None:
             r.bad.append(("meta-less reader: read_sync_analog should return None (no analog sync known), got %r / %r"
                           % (type(an).__name__, exc), dict(tags, defect="analog_api")))
-        try:
-            s = sr.read_sync_digital(slice(0, ns))
-            if s.shape != (ns, 16) or s.tolist() != [py_bits(v) for v in D[:, -1]]:
-                r.bad.append(("meta-less reader: read_sync_digital is not the last trace's bits",
-                              dict(tags, defect="digital")))
-        except _IMPL_EXC as e:
-            r.bad.append(("meta-less reader (nc=385, nsync=%s): read_sync_digital raised %r" % (sr.nsync, e),
-                          dict(tags, defect="no_meta")))
+        sels = [("slice(0, ns)", slice(0, ns), list(range(ns))), ("default slice", None, list(range(ns))),
+                ("slice(3, 1)", slice(3, 1), []), ("slice(-2, None)", slice(-2, None), [ns - 2, ns - 1]),
+                ("[0, -1, 2]", [0, -1, 2], [0, ns - 1, 2]), ("-1", -1, [ns - 1]), ("np.int64(0)", np.int64(0), [0])]
+        for label, sel, pos in sels:
+            a = () if sel is None else (sel,)
+            for name, call in (("read_sync_digital", lambda: sr.read_sync_digital(*a)),
+                               ("read_sync", lambda: sr.read_sync(*a)), ("read(...)[1]", lambda: sr.read(*a)[1])):
+                val, exc = _try(call)
+                is_int = isinstance(sel, (int, np.integer))
+                if exc is not None:
+                    r.bad.append(("meta-less reader (nc=385, nsync=%s): %s(%s) raised %r" % (sr.nsync, name, label, exc),
+                                  dict(tags, defect="int_selector_no_meta" if is_int else "no_meta")))
+                elif (not isinstance(val, np.ndarray) or val.dtype != np.int8 or val.shape != (len(pos), 16)
+                      or val.tolist() != [bits[t] for t in pos]):
+                    r.bad.append(("meta-less reader: %s(%s) is not the decoded last trace of the selected samples "
+                                  "(got %s %s)" % (name, label, type(val).__name__, getattr(val, "shape", None)),
+                                  dict(tags, defect="digital")))
+        r.nontrivial = True
         return r
     finally:
         if sr is not None:
@@ -964,15 +976,8 @@ def exec_sync_sel(case):
                                   "of IndexError" % (what, ns, type(val).__name__, exc), dict(tags, defect="range")))
                 continue
             if exc is not None:
-                if sel[0] == "int" and acols:
-                    d = "int_selector_with_analog"
-                elif not pos and acols and (use_floor or name == "rd"):
-                    d = "empty_selection_floor"
-                else:
-                    d = "exception"
                 r.bad.append(("%s raised %r; the selector picks %d of %d samples (%d analog sync channels)" % (
-                    what, exc, len(pos), ns, len(acols)),
-                    dict(tags, defect=d, **({"kind": "sync_read"} if d == "empty_selection_floor" else {}))))
+                    what, exc, len(pos), ns, len(acols)), dict(tags, defect="exception")))
                 continue
             s_ = val
             if not isinstance(s_, np.ndarray) or s_.dtype != np.int8 or s_.shape != (len(pos), 16 + len(acols)):
@@ -982,8 +987,11 @@ def exec_sync_sel(case):
                               dict(tags, defect="rows")))
             elif s_.tolist() != exp[name]:
                 k = next(i for i in range(len(pos)) if s_[i].tolist() != exp[name][i])
-                r.bad.append(("%s row %d is not sample %d of the recording decoded" % (what, k, pos[k]),
-                              dict(tags, defect="rows")))
+                pooled = (sel[0] == "int" and len(acols) >= 2 and (use_floor or name == "rd")
+                          and s_[k, :16].tolist() == exp[name][k][:16])
+                r.bad.append(("%s row %d is not sample %d of the recording decoded (as %s does)" % (
+                    what, k, pos[k], "read_sync([i])" if sel[0] == "int" else "NumPy indexing of the full array"),
+                    dict(tags, defect="int_selector_pooled_floor" if pooled else "rows")))
         r.nontrivial = bool(pos)
         return r
     finally:
